@@ -57,6 +57,41 @@ Fixpoint ci_syn_ok (o : opts) (s : csyn) : Prop :=
 Lemma ci_item_guard o it : ci_item_ok o it -> item_guard o it.
 Proof. destruct it; cbn; auto. intros H. rewrite <- andb_assoc. rewrite H. apply andb_false_r. Qed.
 
+(* ---- the extended IgnoreCase domain: complement-shaped ranges.
+   A range [a, b] with a <= U+0080 and b >= U+10000 ("everything from a on", e.g. [b-\x{10FFFF}],
+   [\x01-\x{10FFFF}], [\x00-\x{10FFFE}]) is admitted when the flag B holds and the same bracket level
+   names 'i' or 'I' by some range (always the case when a <= 'i'): the range contains U+0130, whose
+   lcTable image is 'i' although U+0130 and 'i' are not in one SimpleFold orbit. *)
+Definition names_i (items : list item) : Prop :=
+  exists a b, In (IRange a b) items /\ (a <= 73 <= b \/ a <= 105 <= b).
+
+Definition ci_item_okx (B : Prop) (o : opts) (items : list item) (it : item) : Prop :=
+  match it with
+  | IRange a b => (forall x, a <= x <= b -> In x good_dom) \/ (B /\ a <= 128 /\ 65536 <= b /\ names_i items)
+  | _ => ci_item_ok o it
+  end.
+Fixpoint ci_syn_okx (B : Prop) (o : opts) (s : csyn) : Prop :=
+  match s with
+  | CSyn _ items sb => Forall (ci_item_okx B o items) items /\ match sb with Some s' => ci_syn_okx B o s' | None => True end
+  end.
+
+Lemma ci_syn_ok_x B o s : ci_syn_ok o s -> ci_syn_okx B o s.
+Proof.
+  induction s as [ng items | ng items s' IH] using csyn_induction; cbn; intros [H1 H2]; (split; [|auto]);
+    apply Forall_forall; intros it Hit; rewrite Forall_forall in H1; specialize (H1 it Hit);
+    destruct it; cbn in *; auto.
+Qed.
+
+(* what the member-by-member lemmas below need: everything but the condition on ranges *)
+Definition ci_item_nr (o : opts) (it : item) : Prop :=
+  match it with IRange _ _ => True | _ => ci_item_ok o it end.
+
+Lemma ci_item_okx_nr B o items it : ci_item_okx B o items it -> ci_item_nr o it.
+Proof. destruct it; cbn; auto. Qed.
+
+Lemma ci_item_nr_guard o it : ci_item_nr o it -> item_guard o it.
+Proof. destruct it; cbn; auto. intros H. rewrite <- andb_assoc. rewrite H. apply andb_false_r. Qed.
+
 Section CiSyntax.
   Variable cat_in : Z -> Z -> bool.
   Variable simple_fold to_lower : Z -> Z.
@@ -158,7 +193,7 @@ Section CiSyntax.
 
   (* one member *)
   Lemma fine_item c L K it :
-    scan_inv c -> fine c L K -> wf_item it -> ci_item_ok o it ->
+    scan_inv c -> fine c L K -> wf_item it -> ci_item_nr o it ->
     fine (elab_item cat_in o c it) (fun ch => L ch || litd it ch) (fun ch => K ch || catd it ch).
   Proof.
     intros (I1 & I2 & I3 & I4 & I5 & I6) Hf Hwf Hok.
@@ -228,7 +263,7 @@ Section CiSyntax.
   Qed.
 
   Lemma fine_items items : forall c L K,
-    scan_inv c -> fine c L K -> Forall wf_item items -> Forall (ci_item_ok o) items ->
+    scan_inv c -> fine c L K -> Forall wf_item items -> Forall (ci_item_nr o) items ->
     fine (fold_left (elab_item cat_in o) items c)
          (fun ch => L ch || existsb (fun it => litd it ch) items)
          (fun ch => K ch || existsb (fun it => catd it ch) items).
@@ -236,7 +271,7 @@ Section CiSyntax.
     induction items as [|it t IH]; intros c L K Hinv Hf Hw Hok.
     - cbn. eapply fine_ext; [| |exact Hf]; intros ch; rewrite orb_false_r; reflexivity.
     - inversion Hw as [|? ? W1 W2]; subst. inversion Hok as [|? ? G1 G2]; subst.
-      destruct (item_step cat_in simple_fold orbit_fuel o c it Hinv W1 (ci_item_guard o it G1)) as [S1 _].
+      destruct (item_step cat_in simple_fold orbit_fuel o c it Hinv W1 (ci_item_nr_guard o it G1)) as [S1 _].
       pose proof (fine_item c L K it Hinv Hf W1 G1) as F1.
       specialize (IH _ _ _ S1 F1 W2 G2). cbn [fold_left].
       eapply fine_ext; [| |exact IH]; intros ch; cbn [existsb]; rewrite orb_assoc; reflexivity.
